@@ -31,8 +31,9 @@
     Modelled, not verified: BLAKE3 (only the two section hypotheses of Proofs/Psi.v are used);
     the SQL text of the three address-book queries (the model states their documented meaning;
     the correspondence run drives the real [SqliteStore]); errors of the store, the subscription
-    and the sink ([PsiHashError::Store/Subscription/Sink/Hash] do not occur in the model: the
-    store and the subscription answer, the sink accepts every message); serde encoding of the
+    and the sink ([PsiHashError::Store/Subscription/Hash] do not occur in the model: the
+    store and the subscription answer; a sink that stops accepting messages is modelled by
+    [alice_run_k]/[bob_run_k]); serde encoding of the
     messages; the channel (reliable, ordered).  Node ids and transport infos are numbers. *)
 From Coq Require Import List Arith NArith Bool.
 Import ListNotations.
@@ -121,7 +122,7 @@ Section Psi.
 
   Inductive rx := Rx (m : msg) | RxErr.
 
-  Inductive err := UnexpectedMessage | StreamErr.
+  Inductive err := UnexpectedMessage | StreamErr | SinkErr.
 
   Record result := { res_remote : N; res_infos : list (N * N); res_topics : list topic }.
 
@@ -173,6 +174,63 @@ Section Psi.
         end
     | Rx _ :: _ => ([], Fail UnexpectedMessage)
     end.
+
+  (** * Sink failures.
+
+      Every send in [alice]/[bob] is [tx.send(m).await.map_err(|_| PsiHashError::Sink)?].  The
+      same two functions once more, for a sink that accepts only the first [k] messages (the
+      peer dropped its receiver after reading [k] of them): the [k+1]-th send fails with [Sink]
+      at the place where it stands in the code. *)
+  Definition alice_run_k (k : nat) (p : party) (sa : half) (inc : list rx) : list msg * outcome :=
+    let m1 := AliceSaltHalf sa in
+    if Nat.ltb k 1 then ([], Fail SinkErr) else
+    match inc with
+    | [] | RxErr :: _ => ([m1], Fail StreamErr)
+    | Rx (BobSaltHalfAndHashedData sb hs) :: rest =>
+        let alice_final := combine_salt sa sb ALICE_SALT_BYTE in
+        let bob_final := combine_salt sa sb BOB_SALT_BYTE in
+        let common := compute_intersection (p_topics p) hs bob_final in
+        let m3 := AliceHashedData (hash_set (p_topics p) alice_final) in
+        if Nat.ltb k 2 then ([m1], Fail SinkErr) else
+        match rest with
+        | [] | RxErr :: _ => ([m1; m3], Fail StreamErr)
+        | Rx (Nodes infos) :: _ =>
+            if Nat.ltb k 3 then ([m1; m3], Fail SinkErr) else
+            ([m1; m3; send_nodes p common],
+             Done {| res_remote := p_remote p; res_infos := infos; res_topics := common |})
+        | Rx _ :: _ => ([m1; m3], Fail UnexpectedMessage)
+        end
+    | Rx _ :: _ => ([m1], Fail UnexpectedMessage)
+    end.
+
+  Definition bob_run_k (k : nat) (p : party) (sb : half) (inc : list rx) : list msg * outcome :=
+    match inc with
+    | [] | RxErr :: _ => ([], Fail StreamErr)
+    | Rx (AliceSaltHalf sa) :: rest =>
+        let alice_final := combine_salt sa sb ALICE_SALT_BYTE in
+        let bob_final := combine_salt sa sb BOB_SALT_BYTE in
+        let m2 := BobSaltHalfAndHashedData sb (hash_set (p_topics p) bob_final) in
+        if Nat.ltb k 1 then ([], Fail SinkErr) else
+        match rest with
+        | [] | RxErr :: _ => ([m2], Fail StreamErr)
+        | Rx (AliceHashedData hs) :: rest2 =>
+            let common := compute_intersection (p_topics p) hs alice_final in
+            let m4 := send_nodes p common in
+            if Nat.ltb k 2 then ([m2], Fail SinkErr) else
+            match rest2 with
+            | [] | RxErr :: _ => ([m2; m4], Fail StreamErr)
+            | Rx (Nodes infos) :: _ =>
+                ([m2; m4], Done {| res_remote := p_remote p; res_infos := infos; res_topics := common |})
+            | Rx _ :: _ => ([m2; m4], Fail UnexpectedMessage)
+            end
+        | Rx _ :: _ => ([m2], Fail UnexpectedMessage)
+        end
+    | Rx _ :: _ => ([], Fail UnexpectedMessage)
+    end.
+
+  (** Specification: the run is the unlimited run cut at the first send the sink refuses. *)
+  Definition with_sink (k : nat) (r : list msg * outcome) : list msg * outcome :=
+    if Nat.leb (length (fst r)) k then r else (firstn k (fst r), Fail SinkErr).
 
   (** * A session of two honest peers.
 
